@@ -8,11 +8,19 @@
    bound handling, tolerance) - monitored on real runs by harness/props/c10.py, not proved;
    (2) that the loop terminates when max_iter is None - the model follows the loop with explicit fuel and
    the theorem speaks about runs that return (with an iteration limit, C10_loop_bounded).
+   SINCE THE CONSTRAINT SYSTEM IS IN THE MODEL (Glb/System.v: which model.a[m][c] are floats and which are
+   variables - the threshold rule with its strict comparisons -, the bounds, the capacity / area / centroid /
+   dispersion equations, the anchor, linking and rigid-offset equations of the movable hard modules, the
+   hyperedge equations; names are data): SolOK is no longer a bare hypothesis but a CONSEQUENCE of "the solver
+   returned a point feasible for the system it was given" (C10_system_feasible_solok, C10_glb_from_system), for
+   every die, allocation, netlist, threshold (ties included) and whatever the module names - given that no
+   netlist module bears the internal name f"{m}_{r}" of a rectangle of a movable hard module, which the repaired
+   code asserts (fixes/C10-fake-name-clash.diff; gen_system = None models the AssertionError).
    "Do not overlap" is proved at the strength the Allocation constructor itself re-validates
    (no two cells overlap by more than the area tolerance aeps); extract_solution alone also keeps exact
    non-overlap (it returns a sub-list of the cells it was given). *)
 From FrameModel Require Import Num.QcTac Geometry.Rect Alloc.Alloc Glb.Extract Glb.ExtractFacts
-  Glb.RigidFacts Glb.LoopFacts Glb.Example.
+  Glb.RigidFacts Glb.LoopFacts Glb.Example Glb.System Glb.SystemFacts Glb.SystemExample.
 Open Scope list_scope.
 Open Scope Qc_scope.
 
@@ -150,3 +158,73 @@ Theorem C10_glb_partial_nonvacuous : exists ms' cells',
   GlbOK C10Example.aeps C10Example.tol C10Example.die C10Example.mods ms' cells'.
 Proof. exact C10Example.glb_partial_applies. Qed.
 Print Assumptions C10_glb_partial_nonvacuous.
+
+(* ---------------------------------------------------------------------------------------------------------
+   The constraint system of optimize_allocation (Glb/System.v)
+   --------------------------------------------------------------------------------------------------------- *)
+
+(* every point feasible for the generated system (bounds exactly, every (in)equation within tol), read through
+   get_value, satisfies the WHOLE solver contract: ratios in [0,1], movable centres in the die box, no cell above
+   1 + tol * (1 + number of movable hard modules), fixed centres and frozen ratios returned as stored *)
+Theorem C10_system_feasible_solok : forall pow32 eps t tol die mods areas cells edges sys asg,
+  gen_system pow32 eps t die mods areas cells edges = Some sys ->
+  names_ok mods ->
+  forallb cell_ok cells = true ->
+  Feasible tol sys asg ->
+  SolOK eps (sys_tol tol mods) t die mods cells (sol_of_asg eps t mods cells asg).
+Proof. exact feasible_solok. Qed.
+Print Assumptions C10_system_feasible_solok.
+
+(* the correspondence files evaluate the generator with the rows of model.a tabulated once: the same system *)
+Theorem C10_fast_generator_same : forall pow32 eps t die mods areas cells edges,
+  gen_system_fast pow32 eps t die mods areas cells edges = gen_system pow32 eps t die mods areas cells edges.
+Proof. exact gen_system_fast_same. Qed.
+Print Assumptions C10_fast_generator_same.
+
+(* the internal names f"{m}_{r}" never collide with each other, whatever the module names *)
+Theorem C10_fake_names_injective : forall m r m' r', fake m r = fake m' r' -> m = m' /\ r = r'.
+Proof. exact fake_inj. Qed.
+Print Assumptions C10_fake_names_injective.
+
+(* THE PROPERTY, conditional only on: at every optimisation of the run the solver answered with a point feasible
+   for the system optimize_allocation built (feasible_along), for every run that returns after at least one
+   optimisation.  [solver_of] = build the system (None: the code raises), solve, read the values. *)
+Theorem C10_glb_from_system : forall pow32 eps aeps t tol die areas edges raw fuel max_iter ms cells ms' cells',
+  0 < t -> t <= 1 -> sys_tol tol ms <= 1 - t ->
+  max_iter <> Some 0%nat ->
+  Inv aeps die ms ms cells ->
+  feasible_along pow32 eps aeps t die areas edges raw tol fuel max_iter 1 ms cells ->
+  glbfloor (solver_of pow32 eps t die areas edges raw) aeps t fuel max_iter ms cells = Finished ms' cells' ->
+  GlbOK aeps (sys_tol tol ms) die ms ms' cells'.
+Proof. exact glb_from_system_thm. Qed.
+Print Assumptions C10_glb_from_system.
+
+(* non-vacuity: an instance with a fixed module, a soft module "H_io" next to the movable flippable hard module
+   "H", its ratio exactly 1 - threshold (a tie: a variable), a three-pin net; its system has a feasible point *)
+Theorem C10_tie_is_variable :
+  get_a C10SysExample.cells C10SysExample.mS 1 = 1 - C10SysExample.t /\
+  model_a C10SysExample.eps C10SysExample.t C10SysExample.cells C10SysExample.mS 1 = None.
+Proof. exact C10SysExample.tie_is_variable. Qed.
+Print Assumptions C10_tie_is_variable.
+Theorem C10_system_feasible_satisfiable : exists sys,
+  C10SysExample.the_system = Some sys /\ Feasible C10SysExample.tol sys C10SysExample.asg.
+Proof. exact C10SysExample.system_feasible. Qed.
+Print Assumptions C10_system_feasible_satisfiable.
+Theorem C10_glb_from_system_nonvacuous : exists ms' cells',
+  glbfloor C10SysExample.solver C10SysExample.aeps C10SysExample.t 2 (Some 1%nat) C10SysExample.mods C10SysExample.cells
+    = Finished ms' cells' /\
+  GlbOK C10SysExample.aeps (sys_tol C10SysExample.tol C10SysExample.mods) C10SysExample.die C10SysExample.mods ms' cells'.
+Proof. exact C10SysExample.glb_from_system_applies. Qed.
+Print Assumptions C10_glb_from_system_nonvacuous.
+
+(* the capacity equations are needed: on that instance, the system WITHOUT its capacity equations has a feasible
+   point (tolerance 0) that occupies a cell 200 % - what a change skipping a capacity equation allows *)
+Theorem C10_capacity_equations_needed : exists sys,
+  C10SysExample.the_system = Some sys /\
+  Forall (fun c => exists k, c = cap_con C10SysExample.eps C10SysExample.t C10SysExample.mods C10SysExample.cells k)
+         (firstn (List.length C10SysExample.cells) (scons sys)) /\
+  Feasible C10SysExample.tol (C10SysExample.drop_caps sys) C10SysExample.asg_bad /\
+  Qcsum (map (fun m => sa (sol_of_asg C10SysExample.eps C10SysExample.t C10SysExample.mods C10SysExample.cells
+                                   C10SysExample.asg_bad) (mname m) 2) C10SysExample.mods) = qc 2 1.
+Proof. exact C10SysExample.capacity_equations_needed. Qed.
+Print Assumptions C10_capacity_equations_needed.
